@@ -26,9 +26,10 @@ open CSem Padding ReconSize BitBuf Lemmas.PadRecon
 /-- Tie to the translated validator: every configuration `svt_av1_enc_set_parameter` accepts (generated model of
     `copy_api_from_app; verify_settings`, C12) has a picture size in `AcceptedSize` — the size `copy_api_from_app` stores in
     `max_input_luma_width/height` is `source_width/height` truncated to 16 bits (EbEncHandle.c:2185-2186). -/
-theorem accepted_cfg_size (s : Gen.Config.Scs) (c : Gen.Config.Cfg) (h : Gen.Config.setParameterAccepts s c = true) :
+theorem accepted_cfg_size (s : Gen.Config.Scs) (c : Gen.Config.Cfg) (hs : s.WellTyped) (hc : c.WellTyped)
+    (h : Gen.Config.setParameterAccepts s c = true) :
     AcceptedSize (c.source_width % 65536) (c.source_height % 65536) := by
-  have d := (C12.accept_iff_codeDomain s c).1 h
+  have d := (C12.accept_iff_codeDomain s c hs hc).1 h
   exact ⟨d.d2, d.d8, d.d3, d.d9, d.d6, d.d7⟩
 
 /-- **pad_spec.** For every accepted picture size (4:2:0: both subsampling shifts 1) `set_param_based_on_input` leaves:
